@@ -645,7 +645,16 @@ def check_against_reference(case, sc, det_sc, cat, rowlabels, mech, props=None, 
         tcols = [p for p in order if p in TABLE_OK][:int(rng.integers(3, 14))]
         if rng.random() < 0.2:
             tcols = 'default'
-    obs = Observer(cat, tcols)
+    try:
+        obs = Observer(cat, tcols)
+    except Exception as exc:  # noqa: BLE001
+        loc = core.exc_location(exc)
+        if loc is None:
+            raise
+        case.check(False, 'property_raised', dict(mech, prop=loc.split(':')[-1], exc=type(exc).__name__, at=loc, via='to_table'),
+                   msg=str(exc)[:200])
+        tcols = None
+        obs = Observer(cat, None)
     if tcols:
         case.note('to_table_columns_observed', len([p for p in order if p in obs.tbl.colnames]))
         if tcols == 'default':
